@@ -92,7 +92,10 @@ MFinal == /\ Is("final")
                                               \* items handed to the export function although their send call returned an error
                                               handedButOfferErr |-> Cardinality({i \in offerErr : attempts[i] >= 1}),
                                               \* items still stored although an export attempt on them was made and not finalised
-                                              storedAfterAttempt |-> Cardinality({i \in SetOf(E.stored) : attempts[i] >= 1 /\ i \notin finalItems})]))
+                                              storedAfterAttempt |-> Cardinality({i \in SetOf(E.stored) : attempts[i] >= 1 /\ i \notin finalItems}),
+                                              \* items still stored although they went through an export attempt (finalised or not):
+                                              \* the persistent queue keeps or deletes WHOLE requests
+                                              storedAttempted |-> Cardinality({i \in SetOf(E.stored) : attempts[i] >= 1})]))
           /\ UNCHANGED <<sid, cfg, before, given, attempts, finalItems, open, anyFail, shutReq, shutRet, late, offerErr>>
 
 MSkip == /\ l <= Len(Log) /\ E.ev \in {"note"} /\ l' = l + 1
